@@ -214,7 +214,7 @@ func checkLeaseSticky(r *Run, k *kvCtx) {
 	q, avis := ac.ReachAvoiding([]Point{ac.Entry()}, nil, func(n ast.Node) bool { return nodeHasCall(alloc, n, calleeIs(fn)) })
 	var path []string
 	for _, ex := range ac.Exits() {
-		if ex.Return != nil && len(ex.Return.Results) == 2 && isNilIdent(alloc, ex.Return.Results[1]) && avis[ex.P] {
+		if ex.Return != nil && mayReturnNilError(alloc, ex.Return) && avis[ex.P] {
 			path = q.PathTo(ex.P)
 		}
 	}
